@@ -134,6 +134,13 @@ BUILT: dict[str, dict[str, str]] = {
         note="Line-granular preemption, simulated processes, SQLite busy timeout 0 (documented 'database is locked' errors are allowed outcomes).",
         ref="DESIGN.md 2.3, 3/C04",
     ),
+    "C19": dict(
+        technique="schedule enumeration + property-based testing (Hypothesis): generated heartbeat histories (stale / fresh / no-beat / finished trials, retry chains several generations deep) and worker scripts (fail_stale_trials, ask) under the deterministic line-level scheduler on SQLite thread / 'process' layouts, with worker death at generated yield points; at-most-once oracle on FAIL transitions, callback invocations and retries",
+        category="exploration",
+        text="Per generated scenario: single-preemption schedules (quick: stratified sample of 60 switch points; thorough: all), generated multi-preemption schedules, and death points of one worker; after a final sweep by a live worker every stale trial must be FAIL, the callback must have run at most once per failure, at most one correct retry per failure and none beyond max_retry, healthy trials untouched.",
+        note="Heartbeat age is set by SQL, not by waiting; line-granular preemption; simulated processes; busy timeout 0.",
+        ref="DESIGN.md 2.3, 3/C19",
+    ),
 }
 
 NOT_YET: dict[str, str] = {}
